@@ -334,8 +334,42 @@ def register(R):
             'marked_not_started': b2z(c.newf('_started')) == B(False),
         }
 
-    R.contract(f'{PPD}._shutdown', props=['C19'], params={}, checks=ppd_shutdown_checks,
+    R.contract(f'{PPD}._shutdown', props=['C19'], params={}, checks=ppd_shutdown_checks, self_type=ObjT(PPD, shared=True), requires_held=('_start_lock',),
                raises={'Exception': only_propagates}, raise_when={'Exception': lambda c: None})
+
+    # ---- start / shutdown happen at most once each: `_started` is owned by `_start_lock` (K2): it is read and written only
+    # while holding the lock, and the decision to start (or to shut down) is taken on the value read under the lock -- two
+    # threads issuing their first download_file() together must not both start a monitor manager, a submitter and workers
+    R.monitor(PPD, lock='_start_lock', fields=dict(_started=Bool), invariant=lambda v, ref: {}, props=['C19', 'C04'])
+    PPD_SH = ObjT(PPD, shared=True)
+    for q in ('_start_transfer_monitor_manager', '_start_submitter', '_start_get_object_workers'):
+        R.contract(f'{PPD}.{q}', params={}, raise_when={'Exception': lambda c: None},
+                   modifies=lambda c: [('f', c.self, f) for f in ('_manager', '_transfer_monitor', '_submitter', '_workers')])
+
+    def ppd_start_checks(c):
+        tr = c.trace
+        order = [e.name.split('.')[-1] for e in tr if e.kind == 'call' and '._start_' in e.name]
+        return {'starts_the_monitor_manager_then_the_submitter_then_the_workers': B(
+                    order == ['_start_transfer_monitor_manager', '_start_submitter', '_start_get_object_workers']),
+                'marked_started_only_after_everything_was_started': b2z(c.newf('_started')) == B(True)}
+
+    R.contract(f'{PPD}._start', props=['C19'], params={}, self_type=PPD_SH, checks=ppd_start_checks, requires_held=('_start_lock',),
+               ensures=lambda c: {'started': b2z(c.newf('_started')) == B(True)},
+               effects=lambda c, st: st.obj(c.self).fields.__setitem__('_started', True),
+               raises={'Exception': lambda c: {'not_marked_started_when_a_start_step_failed': b2z(c.newf('_started')) == b2z(c.oldf('_started'))}},
+               raise_when={'Exception': lambda c: None},
+               modifies=lambda c: [('f', c.self, f) for f in ('_manager', '_transfer_monitor', '_submitter', '_workers', '_started')])
+
+    def ppd_sin_checks(c):
+        st_calls = calls(c.trace, 'ProcessPoolDownloader._start')
+        was = b2z(c.oldf('_started'))          # value at lock acquisition (old_at='acquire')
+        return {'starts_exactly_when_it_was_not_started_at_lock_acquisition': (
+            z3.If(was, B(len(st_calls) == 0), B(len(st_calls) == 1)), ['C19', 'C04'])}
+
+    R.contract(f'{PPD}._start_if_needed', props=['C19', 'C04'], params={}, self_type=PPD_SH, old_at='acquire',
+               checks=ppd_sin_checks, ensures=lambda c: {'started_afterwards': b2z(c.newf('_started')) == B(True)},
+               raises={'Exception': only_propagates}, raise_when={'Exception': lambda c: None},
+               modifies=lambda c: [('f', c.self, f) for f in ('_manager', '_transfer_monitor', '_submitter', '_workers', '_started')])
 
     def ppd_exit_checks(c):
         tr = c.trace
